@@ -554,6 +554,17 @@ class DocutilsRenderer(RendererProtocol):
                     )
 
     def render_hr(self, token: SyntaxTreeNode) -> None:
+        if not isinstance(self.current_node, nodes.document | nodes.section):
+            # docutils only allows a transition directly under a document or section
+            # (its Transitions transform asserts this), so inside other containers,
+            # e.g. a block quote or list item, render the rule directly
+            self.current_node.append(
+                nodes.raw("", '<hr class="docutils" />\n', format="html")
+            )
+            self.current_node.append(
+                nodes.raw("", "\\noindent\\rule{\\textwidth}{0.4pt}\n", format="latex")
+            )
+            return
         node = nodes.transition()
         self.add_line_and_source_path(node, token)
         self.current_node.append(node)
